@@ -415,15 +415,77 @@ Proof.
   - destruct (created (CreateTable t cs pk) c && N.eqb m t); reflexivity.
   - destruct (fst (step (DropTable t) c) && N.eqb m t); reflexivity.
   - rename_proj.
-  - (* AddColumn *) destruct (fst (step (AddColumn t s p) c) && N.eqb m t) eqn:E; [|reflexivity].
-    apply andb_true_iff in E. destruct E as [_ E]. apply N.eqb_eq in E. subst m. destruct (find_tbl t c); reflexivity.
   - (* DropColumn *)
     destruct (fst (step (DropColumn t x) c)) eqn:Ea; cbn [andb].
     + destruct (N.eqb m t) eqn:Em; [|reflexivity]. apply N.eqb_eq in Em. subst m. destruct (find_tbl t c); reflexivity.
     + destruct (N.eqb m t) eqn:Em; [|reflexivity]. apply N.eqb_eq in Em. subst m. destruct (find_tbl t c) as [tb|]; [|reflexivity].
       cbn. destruct (dropcol_leaks x tb); reflexivity.
+  - (* CreateFnIndex *)
+    destruct (fst (step (CreateFnIndex t i x) c) && N.eqb m t) eqn:E; [|reflexivity].
+    apply andb_true_iff in E. destruct E as [_ E]. apply N.eqb_eq in E. subst m. destruct (find_tbl t c) as [tb|] eqn:Ef; [|reflexivity].
+    cbn. rewrite (find_tbl_name _ _ _ Ef). reflexivity.
   - (* DropIndex *)
     destruct (fst (step (DropIndex t i) c) && N.eqb m t) eqn:E; [|reflexivity].
     apply andb_true_iff in E. destruct E as [_ E]. apply N.eqb_eq in E. subst m. destruct (find_tbl t c) as [tb|]; [|reflexivity].
     cbn. unfold drop_idx_full_tbl. cbn. destruct (existsb _ (tcols tb)); reflexivity.
 Qed.
+
+Theorem step_checks : forall o c m, option_map tchk (find_tbl m (exec o c)) = chk_after o c m.
+Proof.
+  intros o c m. rewrite step_tables. unfold tbl_after, chk_after.
+  destruct o as [t cs pk | t | t u | t s p | t x | t x y | t i cs pre uq | t i x | t i | t cs | t | t f cs p pcs | t f | t k x b | t k | v b cs | v | g t before ev r | g | p v | p];
+    try reflexivity; try on_proj.
+  - destruct (created (CreateTable t cs pk) c && N.eqb m t); reflexivity.
+  - destruct (fst (step (DropTable t) c) && N.eqb m t); reflexivity.
+  - rename_proj.
+  - (* DropColumn *)
+    destruct (N.eqb m t) eqn:Em; [|reflexivity]. apply N.eqb_eq in Em. subst m.
+    remember (fst (step (DropColumn t x) c)) as acc eqn:Heq. clear Heq.
+    destruct (find_tbl t c) as [tb|]; [|reflexivity]. cbn [option_map]. f_equal.
+    destruct acc; cbn [orb andb].
+    + unfold drop_col_tbl; cbn [tchk]. destruct (has_hidden tb); reflexivity.
+    + destruct (dropcol_leaks x tb); cbn [andb]; [|reflexivity]. unfold drop_chk_col; cbn [tchk]. destruct (has_hidden tb); reflexivity.
+  - (* DropIndex *)
+    destruct (fst (step (DropIndex t i) c) && N.eqb m t) eqn:E; [|reflexivity].
+    apply andb_true_iff in E. destruct E as [_ E]. apply N.eqb_eq in E. subst m. destruct (find_tbl t c) as [tb|]; [|reflexivity].
+    cbn. unfold drop_idx_full_tbl. cbn. destruct (existsb _ (tcols tb)); reflexivity.
+Qed.
+
+(* ---------- by induction over histories: what exists after h ++ [o] is what the set model makes of what exists after h ---------- *)
+Lemma run_snoc : forall h o c, run (h ++ [o]) c = exec o (run h c).
+Proof. intros h o c. unfold run. rewrite fold_left_app. reflexivity. Qed.
+
+Theorem history_other_objects : forall h o,
+  views (run (h ++ [o]) empty) = views_after o (run h empty) /\
+  trigs (run (h ++ [o]) empty) = trigs_after o (run h empty) /\
+  procs (run (h ++ [o]) empty) = procs_after o (run h empty) /\
+  fks (run (h ++ [o]) empty) = fks_after o (run h empty).
+Proof. intros h o. rewrite run_snoc. apply step_other_objects. Qed.
+
+Theorem history_table_objects : forall h o m,
+  option_map tcols (find_tbl m (run (h ++ [o]) empty)) = cols_after o (run h empty) m /\
+  option_map tidx (find_tbl m (run (h ++ [o]) empty)) = idx_after o (run h empty) m /\
+  option_map tchk (find_tbl m (run (h ++ [o]) empty)) = chk_after o (run h empty) m.
+Proof. intros h o m. rewrite run_snoc. split; [apply step_columns | split; [apply step_indexes | apply step_checks]]. Qed.
+
+Theorem history_starts_empty :
+  views (run [] empty) = [] /\ trigs (run [] empty) = [] /\ procs (run [] empty) = [] /\ fks (run [] empty) = [] /\
+  forall m, find_tbl m (run [] empty) = None.
+Proof. repeat split. Qed.
+
+(* the ordinal gap: a column added after a functional index is listed with a position that skips the hidden column *)
+Definition h_gap : list op :=
+  [CreateTable 1 [mkcs 10 1 true None 0; mkcs 11 1 true None 0] []; CreateFnIndex 1 50 10; AddColumn 1 (mkcs 12 1 true None 0) PLast].
+Lemma ordinal_gap :
+  option_map (fun t => map (fun r => (nth 1 r 0, nth 2 r 0)) (table_columns_rows t)) (find_tbl 1 (run h_gap empty))
+  = Some [(10, 1); (11, 2); (12, 4)].
+Proof. vm_compute. reflexivity. Qed.
+
+(* SHOW CREATE TABLE's key part order against STATISTICS once a functional index exists *)
+Definition h_pkorder : list op :=
+  [CreateTable 1 [mkcs 10 1 false None 0; mkcs 11 1 false None 0] [11; 10]; CreateFnIndex 1 50 10].
+Lemma pk_order_disagrees :
+  show_create_pk (run (removelast h_pkorder) empty) 1 = Some [11; 10] /\
+  show_create_pk (run h_pkorder empty) 1 = Some [10; 11] /\
+  option_map pk_cols (find_tbl 1 (run h_pkorder empty)) = Some [11; 10].
+Proof. repeat split; vm_compute; reflexivity. Qed.
